@@ -63,20 +63,16 @@ def check_site(rep, prog, fn, site, args, kind):
 
     def atomize(leaf):
         s = leaf.strip_all()
-        if s.k == 'CXXOperatorCallExpr' and s.op in ('==', '!=') and len(s.c) == 3:
-            a, b = s.c[1].strip_all(), s.c[2].strip_all()
-            for x, y in ((a, b), (b, a)):
-                # tree_edges.find(e) ==/!= tree_edges.end()
-                if x.k == 'CXXMemberCallExpr' and x.callee['name'] == 'find' and y.k == 'CXXMemberCallExpr' and y.callee['name'] == 'end' and \
-                        ex.var_of(x.object_arg()) in tree_sets and x.args() and ex.key(x.args()[0]) == evar:
-                    f = ex.f_atom('tree_edge')
-                    return ex.f_not(f) if s.op == '==' else f
-                # v == nullptr
-                if y.k in ('CXXNullPtrLiteralExpr', 'GNUNullExpr') or (y.k in ex.CTOR_KINDS and len(y.c) == 1 and y.c[0].strip_all().k in ('CXXNullPtrLiteralExpr', 'GNUNullExpr')):
-                    r = resolve_node_call(fn, x)
-                    if r and r[2] == evar:
-                        f = ex.f_atom('null_' + r[1])
-                        return f if s.op == '==' else ex.f_not(f)
+        m = ex.membership(leaf)
+        if m is not None and ex.var_of(m[0]) in tree_sets and ex.key(m[1]) == evar:
+            f = ex.f_atom('tree_edge')
+            return f if m[2] else ex.f_not(f)
+        nt = ex.null_test(leaf)
+        if nt is not None:
+            r = resolve_node_call(fn, nt[0])
+            if r and r[2] == evar:
+                f = ex.f_atom('null_' + r[1])
+                return f if nt[1] else ex.f_not(f)
         if s.k in ('BinaryOperator', 'CXXOperatorCallExpr') and s.op in ('==', '!='):
             ops = s.c if s.k == 'BinaryOperator' else s.c[1:]
             if len(ops) == 2:
@@ -84,13 +80,6 @@ def check_site(rep, prog, fn, site, args, kind):
                 if da and db and {da, db} == {'source', 'target'}:
                     f = ex.f_atom('same_first')
                     return f if s.op == '==' else ex.f_not(f)
-                # nullptr comparisons on builtin pointers / shared_ptr via BinaryOperator
-                for x, y in ((ops[0], ops[1]), (ops[1], ops[0])):
-                    if y.strip_all().k in ('CXXNullPtrLiteralExpr', 'GNUNullExpr'):
-                        r = resolve_node_call(fn, x)
-                        if r and r[2] == evar:
-                            f = ex.f_atom('null_' + r[1])
-                            return f if s.op == '==' else ex.f_not(f)
         return None
     pc = guards_formula(cfg, site, atomize)
     atoms = ex.f_atoms(pc)
@@ -115,7 +104,12 @@ def check_site(rep, prog, fn, site, args, kind):
             missing.append(bad)
     names = {'tree_edge': 'e is a predecessor (tree) edge', 'null_source': 'the source endpoint has no tree node',
              'null_target': 'the target endpoint has no tree node', 'same_first': 'both endpoints hang below the same child of the root'}
-    if missing:
+    if missing and any(bad not in atoms for bad in missing) and ex.opaque_nodes(fn, pc) and \
+            any(n.enclosing('ForStmt', 'WhileStmt', 'CXXForRangeStmt') is not None and not (n.enclosing('ForStmt', 'WhileStmt', 'CXXForRangeStmt').cond is not None and
+                (n.enclosing('ForStmt', 'WhileStmt', 'CXXForRangeStmt').cond.is_ancestor_of(n) or n.enclosing('ForStmt', 'WhileStmt', 'CXXForRangeStmt').cond.strip() is n))
+                for n in ex.opaque_nodes(fn, pc)):
+        rep.undecided('R14a', site, fn, what, 'guard `%s` is outside the idiom table' % ex.opaque_nodes(fn, pc)[0].text(40))
+    elif missing:
         rep.violation('R14a', site, fn, what, 'the candidate is also created when ' + '; or when '.join(names[m] for m in missing) +
                       ': it is then not a simple cycle through the root', key='R14a|%s|%s' % (fn.g, ','.join(missing)))
     else:
